@@ -42,7 +42,7 @@ theorem fam_agree (h : expire now c = .ok c') (cfg : Cfg) (q proj : Val) (upd : 
   | some u =>
     dsimp only
     split
-    · exact .inr ⟨_, rfl, rfl⟩
+    · exact go_agree h cfg q proj (some u) upsert sort after
     · split
       · exact .inr ⟨_, rfl, rfl⟩
       · exact go_agree h cfg q proj (some u) upsert sort after
